@@ -124,3 +124,57 @@ def hostPortNoPort (scheme host : Bytes) : Bytes × Bytes :=
     (host ++ port, host)
 
 end WS.Client
+
+namespace WS.Client
+
+/-! ### the dial-path matrix (C18): which function makes the first hop, what the proxy is asked,
+    where TLS is layered and whether the dial can succeed -/
+
+inductive ProxyKind | none | http | https | socks5 deriving DecidableEq, Repr
+inductive Cred | none | user | userpass | userempty deriving DecidableEq, Repr
+inductive CertCase | ok | other | untrusted deriving DecidableEq, Repr
+
+structure MCfg where
+  proxy : ProxyKind
+  wss : Bool
+  nd : Bool          -- Dialer.NetDial set
+  ndc : Bool         -- Dialer.NetDialContext set
+  ndtls : Bool       -- Dialer.NetDialTLSContext set
+  cred : Cred
+  cert : CertCase    -- the backend's certificate
+  skipVerify : Bool  -- TLSClientConfig.InsecureSkipVerify
+  deriving DecidableEq, Repr
+
+inductive DialFn | nd | ndc | ndtls | default deriving DecidableEq, Repr
+
+structure MPlan where
+  firstFn : DialFn
+  firstHopIsProxy : Bool
+  libTLSFirstHop : Bool          -- the library wraps the first hop in TLS (netDialWithTLSHandshake)
+  connect : Bool                 -- one CONNECT to hostPort(backend)
+  connectAuth : Bool             -- with Basic Proxy-Authorization
+  socks : Bool
+  libTLSBackend : Bool           -- the library does (verified) TLS to the backend with ServerName = URL host
+  customTLSBackend : Bool        -- a custom NetDialTLSContext is trusted with TLS to the backend
+  succeeds : Bool
+  deriving DecidableEq, Repr
+
+/-- is the first dialed entity an https one (then NetDialTLSContext applies, or the library adds TLS) -/
+def MCfg.firstHTTPS (c : MCfg) : Bool := c.proxy == .https || (c.proxy == .none && c.wss)
+
+def dialPlan (c : MCfg) : MPlan :=
+  let base : DialFn := if c.ndc then .ndc else if c.nd then .nd else .default
+  let firstFn : DialFn := if c.firstHTTPS && c.ndtls then .ndtls else base
+  let libTLSFirst := c.firstHTTPS && !c.ndtls
+  let viaProxy := c.proxy != .none
+  let connect := c.proxy == .http || c.proxy == .https
+  let socks := c.proxy == .socks5
+  -- TLS to the backend: over the tunnel when a proxy is used, at the first hop otherwise
+  let libTLSBackend := c.wss && (viaProxy || !c.ndtls)
+  let customTLSBackend := c.wss && !viaProxy && c.ndtls
+  let certAccepted := if libTLSBackend then (c.cert == .ok || c.skipVerify) else if customTLSBackend then c.cert == .ok else true
+  { firstFn, firstHopIsProxy := viaProxy, libTLSFirstHop := libTLSFirst, connect,
+    connectAuth := connect && (c.cred == .userpass || c.cred == .userempty), socks,
+    libTLSBackend, customTLSBackend, succeeds := certAccepted }
+
+end WS.Client
